@@ -451,7 +451,7 @@ func TestCheck(t *testing.T) {
 	defer rec.Close()
 	initCA()
 	rec.Note("rule", "a case is one scenario against the real SPIFFE object in a synctest bubble with a scripted issuer signing real SVIDs: (order) each of the six first-call orders of Run / Ready / GetX509SVID from separate goroutines x initial fetch succeeding or failing x consumer additionally parked inside GetX509SVID while it holds the read lock; (renewal) a seeded script of 3-8 issuer outcomes (validity windows from 2 s to 30 days, already past half-life, expired, not yet valid; failures: an issuer error, an empty answer, or a signed chain without a usable SPIFFE ID) with the virtual clock advanced in seeded steps of seconds to hours, optionally writing the identity to a directory and rotating the trust anchors. Non-trivial = the issuer received at least one request; distinct = distinct scenario description.")
-	rec.Note("require", []string{"order.get_first", "files.chain_shape.plain", "files.chain_shape.with-root", "files.chain_shape.rollover", "files.chain_shape.same-dn-leaf", "order.ready_first", "order.run_first", "order.initial_fetch_failed", "order.second_run_refused", "order.run_context_ended_during_initial_fetch", "order.consumer_parked_with_rlock", "renewal.requests", "renewal.on_time", "renewal.retry_after_failure", "renewal.served_latest_checked", "renewal.fresh_keys_checked", "renewal.unusable_answer_scripted", "renewal.get_during_inflight_renewal", "renewal.reader_parked_across_renewal", "renewal.consumer_get_at_publication", "files.sets_checked", "anchors.source_uses_kit_pem_encoder", "files.undisturbed_after_failed_fetch"})
+	rec.Note("require", []string{"order.get_first", "files.chain_shape.plain", "files.chain_shape.with-root", "files.chain_shape.rollover", "files.chain_shape.same-dn-leaf", "order.ready_first", "order.run_first", "order.initial_fetch_failed", "order.second_run_refused", "order.run_context_ended_during_initial_fetch", "order.consumer_parked_with_rlock", "renewal.requests", "renewal.on_time", "renewal.retry_after_failure", "renewal.served_latest_checked", "renewal.fresh_keys_checked", "renewal.unusable_answer_scripted", "renewal.get_during_inflight_renewal", "renewal.reader_parked_across_renewal", "renewal.consumer_get_at_publication", "files.sets_checked", "anchors.source_uses_kit_pem_encoder", "files.undisturbed_after_failed_fetch", "issuer.error_returned_with_a_usable_chain", "issuer.error_is_a_wrapped_deadline_exceeded", "issuer.error_is_a_wrapped_canceled", "renewal.get_while_component_logs", "order.initial_fetch_failed_at_publication.identity-dir-unwritable", "order.initial_fetch_failed_at_publication.anchors-unavailable"})
 	ps := plans()
 	rec.Planned(len(ps))
 	for idx, pl := range ps {
@@ -515,13 +515,41 @@ func orderScenario(w *world, pl plan, bubble bool) (candidate string) {
 		return mon.QuiesceInfo{OK: true}
 	}
 	is := &issuer{gate: make(chan struct{}), realtime: !bubble}
+	var dirp *string
 	if pl.fail {
-		is.script = []outcome{{Fail: true, Kind: []string{"", "err-with-chain", "empty", "no-id", "bad-id"}[w.idx%5]}}
+		kind := []string{"", "err-with-chain", "empty", "no-id", "bad-id", "identity-dir-unwritable", "anchors-unavailable"}[w.idx%7]
+		switch kind {
+		case "identity-dir-unwritable", "anchors-unavailable":
+			// the issuer signs; the fetch fails afterwards, when the identity is published: the parent of the
+			// identity directory is a regular file, or the trust anchors cannot be read. A fetch that could not
+			// publish what it fetched has failed like any other.
+			is.script = []outcome{{Win: windows[4]}}
+			is.withDir = true
+			base := os.Getenv("VERIF_SCRATCH")
+			if base == "" {
+				base = filepath.Join(os.TempDir(), fmt.Sprintf("verif-c19-%d", os.Getpid()))
+			}
+			root := filepath.Join(base, fmt.Sprintf("order%d-%v", w.idx, bubble))
+			os.RemoveAll(root)
+			os.MkdirAll(root, 0o755)
+			defer os.RemoveAll(root)
+			target := filepath.Join(root, "identity")
+			if kind == "identity-dir-unwritable" {
+				os.WriteFile(filepath.Join(root, "blocker"), []byte("x"), 0o644)
+				target = filepath.Join(root, "blocker", "identity")
+			} else {
+				is.anchorsFail.Store(true)
+			}
+			dirp = &target
+			rec.Count("order.initial_fetch_failed_at_publication."+kind, 1)
+		default:
+			is.script = []outcome{{Fail: true, Kind: kind}}
+		}
 	} else {
 		is.script = []outcome{{Win: windows[4]}}
 	}
 	w.is = is
-	s := newSpiffe(is, nil)
+	s := newSpiffe(is, dirp)
 	src := s.SVIDSource()
 	ctx, cancel := context.WithCancel(context.Background())
 	defer cancel()
@@ -669,7 +697,7 @@ func orderScenario(w *world, pl plan, bubble bool) (candidate string) {
 }
 
 func runOrder(t *testing.T, idx int, pl plan) {
-	w := &world{idx: idx, mode: "order", desc: fmt.Sprintf("order=%v fail=%v(kind %d) park=%v cancelEarly=%v", pl.order, pl.fail, idx%5, pl.park, pl.cancelEarly)}
+	w := &world{idx: idx, mode: "order", desc: fmt.Sprintf("order=%v fail=%v(kind %d) park=%v cancelEarly=%v", pl.order, pl.fail, idx%7, pl.park, pl.cancelEarly)}
 	rec.Begin(idx, w.mode+" "+w.desc)
 	var cand string
 	res := mon.Bubble(t, func() {
